@@ -150,7 +150,12 @@ func (wf *WALFileType) Replay(dryRun bool) error {
 
 		// Note that only TG data that did not have a COMMITCOMPLETE record are replayed
 		rootDir := filepath.Dir(wf.FilePtr.Name())
-		tgID, wtSets := ParseTGData(tgSerialized, rootDir)
+		tgID, wtSets, err := parseTGDataChecked(tgSerialized, rootDir)
+		if err != nil {
+			// the record passed its checksum but its contents are malformed: never replayed
+			log.Error(io.GetCallerFileContext(0) + ": skipping TG data: " + err.Error())
+			continue
+		}
 		if err := wf.replayTGData(tgID, wtSets); err != nil {
 			return fmt.Errorf("replay transaction group data. tgID=%d, "+
 				"write transaction size=%d:%w", tgID, len(wtSets), err)
@@ -166,6 +171,27 @@ func (wf *WALFileType) Replay(dryRun bool) error {
 
 	log.Info("Finished replay of TGData")
 	return nil
+}
+
+// parseTGDataChecked parses transaction group data read from a WAL file. ParseTGData trusts the
+// length fields inside the record, so malformed contents are reported as an error here instead of
+// taking the process down during startup.
+func parseTGDataChecked(tgSerialized []byte, rootDir string) (tgID int64, wtSets []wal.WTSet, err error) {
+	const tgHeaderBytes = 16 // TGID + write transaction count
+	if len(tgSerialized) < tgHeaderBytes {
+		return 0, nil, fmt.Errorf("TG data too short: %d bytes", len(tgSerialized))
+	}
+	// every write transaction takes more than one byte
+	if wtCount := io.ToInt64(tgSerialized[tgIDBytes:tgHeaderBytes]); wtCount < 0 || wtCount > int64(len(tgSerialized)) {
+		return 0, nil, fmt.Errorf("insane write transaction count: %d", wtCount)
+	}
+	defer func() {
+		if r := recover(); r != nil {
+			tgID, wtSets, err = 0, nil, fmt.Errorf("malformed TG data: %v", r)
+		}
+	}()
+	tgID, wtSets = ParseTGData(tgSerialized, rootDir)
+	return tgID, wtSets, nil
 }
 
 func (wf *WALFileType) replayTGData(tgID int64, wtSets []wal.WTSet) (err error) {
